@@ -6,7 +6,10 @@
   the complement table.
 -/
 import Bio.Model.Mash
-namespace Bio
+/-! ## Order facts on `bytesLt`, `mapM`, reverse complement (kept in `Bio.Mash` so that they
+cannot collide with other lemma files) -/
+namespace Bio.Mash
+open Sequtil
 
 theorem bytesLt_asymm : ∀ {a b : Bytes}, bytesLt a b = true → bytesLt b a = false
   | [], [], h => by simp [bytesLt] at h
@@ -44,7 +47,6 @@ theorem bytesLt_trichotomy : ∀ {a b : Bytes}, bytesLt a b = false → bytesLt 
           simp only [UInt8.lt_iff_toNat_lt] at hxy hyx; omega
         rw [this, ih h1 h2]
 
-namespace Sequtil
 
 theorem mapM_eq_some_iff {α β : Type} (f : α → Option β) : ∀ (l : List α) (r : List β),
     l.mapM f = some r ↔ l.map f = r.map some
@@ -119,6 +121,11 @@ theorem canonItem_swap {s r : Bytes} {k i : Nat} (hl : r.length = s.length)
   · exact (bytesLt_trichotomy h2 h1)
   · have := bytesLt_asymm h1; simp [h2] at this
 
+end Bio.Mash
+
+namespace Bio.Sequtil
+open Bio.Mash
+
 /-- Strand symmetry of canonical k-mers: the reverse complement yields the same
 items in the opposite order. -/
 theorem canonical_revComp {tbl : List UInt8}
@@ -137,8 +144,17 @@ theorem canonical_revComp {tbl : List UInt8}
     rw [canonItem_swap hl (by omega)]
     congr 1; omega
 
-end Sequtil
-end Bio
+/-- The same without naming the reverse complement: a panic (`none`) of
+`ReverseComplement` is a panic of `CanonicalSubsequences` on either strand. -/
+theorem canonical_revComp_bind {tbl : List UInt8}
+    (hc : ∀ b c, comp tbl b = some c → comp tbl c = some b) (s : Bytes) (k : Nat) :
+    (revComp tbl [] s).bind (fun r => canonical tbl r k) =
+      (canonical tbl s k).map List.reverse := by
+  cases h : revComp tbl [] s with
+  | none => simp [canonical, canonicalLog, h]
+  | some r => simpa using canonical_revComp hc k h
+
+end Bio.Sequtil
 
 namespace Bio.Mash
 
@@ -758,6 +774,10 @@ theorem interLoop_stop (k : Nat) : ∀ (fuel : Nat) (xs ys : List Nat) (inter m 
         · have := interLoop_stop k fuel xs ys (inter + 1) (m + 1) (ca + 1) (cb + 1) (by omega)
           omega
 
+theorem specInter_le (n : Nat) (a b : List Nat) : specInter n a b ≤ n := by
+  unfold specInter
+  exact Nat.le_trans (List.length_filter_le _ _) (by simp; omega)
+
 theorem specInter_reverse (n : Nat) (a b : List Nat) :
     specInter n a.reverse b.reverse = specInter n a b := by
   have hU : sortAsc (dedup (a.reverse ++ b.reverse)) = sortAsc (dedup (a ++ b)) :=
@@ -806,7 +826,7 @@ theorem revComp_upper {tbl : List UInt8}
     (hu : ∀ b, Sequtil.comp tbl (upperByte b) = (Sequtil.comp tbl b).map upperByte)
     {s r : Bytes} (h : Sequtil.revComp tbl [] s = some r) :
     Sequtil.revComp tbl [] (upper s) = some (upper r) := by
-  rw [Sequtil.revComp_nil_eq_some_iff] at h ⊢
+  rw [revComp_nil_eq_some_iff] at h ⊢
   rw [upper_eq_map, upper_eq_map, ← List.map_reverse, List.map_map, List.map_map]
   have : Sequtil.comp tbl ∘ upperByte = Option.map upperByte ∘ Sequtil.comp tbl := by
     funext b; exact hu b
